@@ -446,4 +446,136 @@ pub fn run(run: &mut Run, args: &Args) {
     let rt = tokio::runtime::Builder::new_current_thread().enable_all().build().unwrap();
     codecs(run, &mut rng);
     e2e(run, &mut rng, &rt);
+    e2e_extra(run, &mut rng, &rt);
+}
+
+/// Two shapes the main e2e stream does not reach: (A) every text codec with and without an explicit
+/// compression level; (B) two STRING partition columns whose values contain the path separator, so
+/// that distinct value tuples share one '/'-joined string. Implementation-level oracle: the read-back
+/// multiset equals the written one.
+fn e2e_extra(run: &mut Run, rng: &mut Rng, rt: &tokio::runtime::Runtime) {
+    let mk_ctx = || {
+        let cfg = SessionConfig::new().with_target_partitions(1).set_bool("datafusion.sql_parser.map_string_types_to_utf8view", false);
+        let ctx = SessionContext::new_with_config(cfg);
+        let store = Arc::new(InMemory::new());
+        ctx.register_object_store(&url::Url::parse("mem://b").unwrap(), Arc::clone(&store) as Arc<dyn ObjectStore>);
+        ctx
+    };
+    let collect3 = |batches: &[RecordBatch]| -> Result<Vec<String>, String> {
+        let mut out = vec![];
+        for b in batches {
+            let c = |i: usize, t: &DataType| arrow::compute::cast(b.column(i), t).map_err(|e| e.to_string());
+            let (id, x, y) = (c(0, &DataType::Int64)?, c(1, &DataType::Utf8)?, c(2, &DataType::Utf8)?);
+            let id = id.as_any().downcast_ref::<Int64Array>().unwrap().clone();
+            let x = x.as_any().downcast_ref::<StringArray>().unwrap().clone();
+            let y = y.as_any().downcast_ref::<StringArray>().unwrap().clone();
+            for i in 0..b.num_rows() {
+                let f = |a: &StringArray| if a.is_null(i) { "NULL".to_string() } else { format!("x{}", hex(a.value(i).as_bytes())) };
+                out.push(format!("{}|{}|{}", id.value(i), f(&x), f(&y)));
+            }
+        }
+        out.sort();
+        Ok(out)
+    };
+    let batch3 = |rows: &[(i64, String, String)]| {
+        let schema = Arc::new(Schema::new(vec![Field::new("id", DataType::Int64, false), Field::new("a", DataType::Utf8, false), Field::new("b", DataType::Utf8, false)]));
+        RecordBatch::try_new(
+            schema,
+            vec![
+                Arc::new(Int64Array::from(rows.iter().map(|r| r.0).collect::<Vec<_>>())) as ArrayRef,
+                Arc::new(StringArray::from(rows.iter().map(|r| r.1.clone()).collect::<Vec<_>>())),
+                Arc::new(StringArray::from(rows.iter().map(|r| r.2.clone()).collect::<Vec<_>>())),
+            ],
+        )
+        .unwrap()
+    };
+    let want_of = |rows: &[(i64, String, String)]| {
+        let mut w: Vec<String> = rows.iter().map(|r| format!("{}|x{}|x{}", r.0, hex(r.1.as_bytes()), hex(r.2.as_bytes()))).collect();
+        w.sort();
+        w
+    };
+
+    // ---- (A) codec x explicit level
+    let words = ["alpha", "b,c", "d\"q", "", "é", "long long long long long long long long"];
+    let reps = run.budget(1, 4);
+    for rep in 0..reps {
+        for fmt in ["csv", "json"] {
+            for (codec, ext) in [("gzip", "gz"), ("bzip2", "bz2"), ("xz", "xz"), ("zstd", "zst")] {
+                for level in [None, Some(1u32), Some(3), Some(6)] {
+                    let nrows = 1 + rng.below(12) as usize;
+                    let rows: Vec<(i64, String, String)> = (0..nrows).map(|i| (i as i64, format!("w{}", rng.pick(&words)), format!("v{}", rng.pick(&words)))).collect();
+                    let ctx = mk_ctx();
+                    ctx.register_batch("src", batch3(&rows)).unwrap();
+                    let stored = fmt.to_uppercase();
+                    let mut wopts = vec![format!("'format.compression' '{codec}'")];
+                    if let Some(l) = level {
+                        wopts.push(format!("'format.compression_level' '{l}'"));
+                    }
+                    let mut ropts = vec![format!("'format.compression' '{codec}'")];
+                    if fmt == "csv" {
+                        ropts.push("'format.has_header' 'true'".into());
+                    }
+                    let copy = format!("COPY (SELECT * FROM src) TO 'mem://b/t/' STORED AS {stored} OPTIONS ({})", wopts.join(", "));
+                    let ddl = format!("CREATE EXTERNAL TABLE r (id BIGINT, a VARCHAR, b VARCHAR) STORED AS {stored} LOCATION 'mem://b/t/' OPTIONS ({})", ropts.join(", "));
+                    let res: Result<Vec<RecordBatch>, String> = rt.block_on(async {
+                        let e = |x: datafusion_common::DataFusionError| x.to_string();
+                        ctx.sql(&copy).await.map_err(e)?.collect().await.map_err(|x| format!("write: {x}"))?;
+                        ctx.sql(&ddl).await.map_err(e)?.collect().await.map_err(e)?;
+                        ctx.sql("SELECT id, a, b FROM r").await.map_err(e)?.collect().await.map_err(|x| format!("read: {x}"))
+                    });
+                    run.count(&format!("codec {fmt}/{codec}/{}", if level.is_some() { "explicit-level" } else { "default-level" }));
+                    let sig = format!("c25 e2e-codec fmt={fmt} codec={codec} level={level:?} rep={rep}");
+                    match res.and_then(|b| collect3(&b)) {
+                        Ok(got) => {
+                            let want = want_of(&rows);
+                            run.oracle(got == want, &sig, &format!("written {want:?} read back {got:?}"));
+                        }
+                        Err(m) => run.oracle(false, &sig, &format!("written with {copy:?}, reading back fails: {}", m.chars().take(300).collect::<String>())),
+                    }
+                }
+            }
+        }
+    }
+
+    // ---- (B) two string partition columns, values with '/'
+    let vals = ["x", "y/z", "x/y", "z", "y", "x/y/z", "z/", "/x", "a=b", "x/a=b"];
+    let n = run.budget(60, 1200);
+    for case_i in 0..n {
+        let fmt = ["parquet", "csv", "json"][(case_i % 3) as usize];
+        let nrows = 2 + rng.below(8) as usize;
+        let mut rows: Vec<(i64, String, String)> = (0..nrows).map(|i| (i as i64, rng.pick(&vals).to_string(), rng.pick(&vals).to_string())).collect();
+        if rng.chance(1, 2) && nrows >= 2 {
+            // force a collision of the joined key: (u, v/w) and (u/v, w)
+            let (u, v, w) = (*rng.pick(&["x", "y", "z"]), *rng.pick(&["x", "y", "z"]), *rng.pick(&["x", "y", "z"]));
+            rows[0].1 = u.to_string();
+            rows[0].2 = format!("{v}/{w}");
+            rows[1].1 = format!("{u}/{v}");
+            rows[1].2 = w.to_string();
+        }
+        let mut joined = std::collections::BTreeMap::<String, std::collections::BTreeSet<(String, String)>>::new();
+        for r in &rows {
+            joined.entry(format!("{}/{}", r.1, r.2)).or_default().insert((r.1.clone(), r.2.clone()));
+        }
+        run.count(if joined.values().any(|s| s.len() > 1) { "2part: distinct tuples share a joined key" } else { "2part: joined keys distinct" });
+        let ctx = mk_ctx();
+        ctx.register_batch("src", batch3(&rows)).unwrap();
+        let stored = fmt.to_uppercase();
+        let copy = format!("COPY (SELECT * FROM src) TO 'mem://b/t/' STORED AS {stored} PARTITIONED BY (a, b)");
+        let ddl = format!(
+            "CREATE EXTERNAL TABLE r (id BIGINT, a VARCHAR, b VARCHAR) STORED AS {stored} PARTITIONED BY (a, b) LOCATION 'mem://b/t/' {}",
+            if fmt == "csv" { "OPTIONS ('format.has_header' 'true')" } else { "" }
+        );
+        let res: Result<Vec<RecordBatch>, String> = rt.block_on(async {
+            let e = |x: datafusion_common::DataFusionError| x.to_string();
+            ctx.sql(&copy).await.map_err(e)?.collect().await.map_err(|x| format!("write: {x}"))?;
+            ctx.sql(&ddl).await.map_err(e)?.collect().await.map_err(e)?;
+            ctx.sql("SELECT id, a, b FROM r").await.map_err(e)?.collect().await.map_err(|x| format!("read: {x}"))
+        });
+        let want = want_of(&rows);
+        let sig = format!("c25 e2e-2part fmt={fmt} rows={}", want.join(";"));
+        match res.and_then(|b| collect3(&b)) {
+            Ok(got) => run.oracle(got == want, &sig, &format!("written {rows:?} read back {got:?}")),
+            Err(m) => run.oracle(false, &sig, &format!("written {rows:?}: {}", m.chars().take(300).collect::<String>())),
+        }
+    }
 }
